@@ -599,6 +599,22 @@ func (e *SpecEnv) call(n *CallE) Val {
 			return Term{s, boolT}
 		}
 		return Term{e.eqNil(v, Term{"0", nil}), boolT}
+	case "seensum": // sum of the values visited so far by the map range of this loop
+		if e.curLoop == nil || e.fr == nil {
+			bail("spec: seensum() is only meaningful in the invariant of a map range loop")
+		}
+		for b := range e.curLoop.body {
+			for _, in := range b.Instrs {
+				if nx, ok := in.(*ssa.Next); ok {
+					if it, ok := e.fr.regs[nx.Iter].(*RangeIter); ok && it.SeenSum != nil {
+						if ri, ok := nx.Iter.(*ssa.Range); ok && !e.curLoop.body[ri.Block()] {
+							return e.st.cells[it.SeenSum]
+						}
+					}
+				}
+			}
+		}
+		bail("spec: seensum() without an active numeric map range")
 	case "seen": // seen(k): key already visited by the map range of the loop this clause belongs to
 		if e.curLoop == nil || e.fr == nil {
 			bail("spec: seen() is only meaningful in the invariant of a map range loop")
